@@ -6,6 +6,7 @@ from pytorch_wavelets.dtcwt.lowlevel import prep_filt
 from .lowlevel import mode_to_int
 from .lowlevel import ScatLayerj1_f, ScatLayerj1_rot_f
 from .lowlevel import ScatLayerj2_f, ScatLayerj2_rot_f
+from pytorch_wavelets._verif import point as _vp
 
 
 class ScatLayer(nn.Module):
@@ -53,6 +54,7 @@ class ScatLayer(nn.Module):
         # If the row/col count of X is not divisible by 2 then we need to
         # extend X
         _, ch, r, c = x.shape
+        _vp('ScatLayer.extend', rows=r, cols=c)
         if r % 2 != 0:
             x = torch.cat((x, x[:,:,-1:]), dim=2)
         if c % 2 != 0:
@@ -135,6 +137,7 @@ class ScatLayerj2(nn.Module):
     def forward(self, x):
         # Ensure the input size is divisible by 8
         ch, r, c = x.shape[1:]
+        _vp('ScatLayerj2.extend', rows=r, cols=c)
         rem = r % 8
         if rem != 0:
             rows_after = (9-rem)//2
